@@ -50,32 +50,57 @@ def run(ctx, chk):
         else:
             chk.fail('C19.1', 'offset:' + nm, 'Header.%s is at offset %s, the cartridge header has it at %#x'
                      % (nm, offs.get(nm), want), 'src/cart.rs', None)
-    rh = prog.fns['system::read_header']
-    seek_const = None
-    sizeof_hdr = False
-    read_exact = False
-    tries = 0
-    for b in rh['blocks']:
-        for s in b['stmts']:
-            if s['k'] == 'assign' and s['rv']['k'] == 'aggregate' and s['rv']['kind']['k'] == 'adt' and \
-                    s['rv']['kind']['name'].endswith('SeekFrom') and s['rv']['kind']['variant'] == 'Start':
-                o = s['rv']['ops'][0]
-                if o['k'] == 'const':
-                    seek_const = o['val']
-        t = b['term']
-        if t['k'] == 'call':
-            c = t['resolved'] or t['callee']
-            if c.endswith('mem::size_of') and 'cart::Header' in t['generics']:
-                sizeof_hdr = True
-            if c.endswith('Read::read_exact'):
-                read_exact = True
-            if c.endswith('Try>::branch'):
-                tries += 1
-    if seek_const == 0x100 and sizeof_hdr and read_exact and tries >= 2:
-        chk.ok('C19.1', 'read_header', sample={'seek': '0x100', 'reads': 'size_of::<Header>()', 'errors': 'propagated with ?'})
+    # read protocol, decided on the paths of read_header: every seek goes to Start(0x100); every read_exact fills
+    # exactly size_of::<Header>() bytes; Ok(header) is returned only on a path where the seek succeeded, reported
+    # position 0x100, and the read succeeded; every other path returns Err
+    ipr = absint.Interp(facts)
+    st = ipr.new_state()
+    rsr = ipr.run('system::read_header', [S(0, 'file')], st)
+    hdr_size = adt['size']
+    problems = []
+    ok_paths = 0
+    for r in rsr:
+        if r.status == 'unreachable':
+            continue        # the impossible arm of a match on a two-variant Result
+        if r.status != 'ok':
+            problems.append('read_header can diverge (%s)' % r.status)
+            continue
+        seeks = [e for e in r.state.events if e[0] == 'extcall' and e[1].endswith('::seek')]
+        reads = [e for e in r.state.events if e[0] == 'extcall' and e[1].endswith('::read_exact')]
+        for e in seeks:
+            a1 = e[2][1] if len(e[2]) > 1 else None
+            if not (a1 is not None and a1[0] == 'agg' and a1[1][3] == 'Start' and a1[2] and a1[2][0] == C(64, 0x100)):
+                problems.append('seek target is %s, the header is at Start(0x100)' % (fmt(a1) if a1 else None))
+        for e in reads:
+            buf = e[2][1] if len(e[2]) > 1 else None
+            ln = None
+            if buf is not None and buf[0] == 'slice':
+                ln = r.state.env.const_of(buf[4])
+            elif buf is not None and buf[0] == 'ref':
+                tgt = ipr.read(r.state, buf[1], buf[2])
+                if tgt is not None and tgt[0] == 'agg':
+                    ln = len(tgt[2])
+            if ln != hdr_size:
+                problems.append('read_exact fills %s bytes, the header is %d bytes' % (ln, hdr_size))
+        isok = r.ret is not None and r.ret[0] == 'agg' and r.ret[1][3] == 'Ok'
+        if isok:
+            ok_paths += 1
+            env = r.state.env
+            decs = [(fmt(d[0]), env.const_of(d[0])) for d in r.state.decisions]
+            seek_ok = any(f.startswith('discr(ext:seek') and v == 0 for f, v in decs)
+            read_ok = any(f.startswith('discr(ext:read_exact') and v == 0 for f, v in decs)
+            pos_ok = any('0x100' in f and 'seek' in f and ((f.startswith('ne(') and v == 0) or (f.startswith('eq(') and v == 1))
+                         for f, v in decs)
+            if not (seeks and reads and seek_ok and read_ok and pos_ok):
+                problems.append('Ok(header) is returned on a path where seek ok=%s, position == 0x100 tested=%s, read ok=%s'
+                                % (seek_ok, pos_ok, read_ok))
+    if not ok_paths:
+        problems.append('read_header never returns Ok')
+    if not problems:
+        chk.ok('C19.1', 'read_header', sample={'seek': 'Start(0x100)', 'reads': '%d bytes = size_of::<Header>()' % hdr_size,
+                                               'Ok only when': 'seek ok, position 0x100, read ok'})
     else:
-        chk.fail('C19.1', 'read_header', 'read_header: seek offset %s, size_of::<Header>=%s, read_exact=%s, ? operators=%d'
-                 % (seek_const, sizeof_hdr, read_exact, tries), 'src/system/mod.rs', None)
+        chk.fail('C19.1', 'read_header', 'read_header: %s' % '; '.join(sorted(set(problems))[:3]), 'src/system/mod.rs', None)
     # ---- rule 2: checksum
     ip = absint.Interp(facts, trust_asserts=('bounds', 'overflow'), step_limit=400000)
     st = ip.new_state()
